@@ -394,40 +394,58 @@ def observe(case, base, port):
                 port[0], port[1],
                 file_relpath(case, root["file"]).replace(os.sep, "/"))
             ds = fmt_http.RTDC_HTTP(url)
-        try:
-            fb = ds.features_basin
-            res["fb"] = sorted(int(f[7:]) for f in fb
-                               if re.match(r"^userdef[0-%d]$" % (NFEAT - 1),
-                                           f))
-        except CaseTimeout:
-            raise
-        except BaseException as e:
-            res["fb"] = [-2]
-            res["fb_error"] = repr(e)
-        for ft in range(NFEAT):
-            name = "userdef%d" % ft
+
+        def obs_listing():
             try:
-                res["contains"].append(1 if name in ds else 0)
+                fb = ds.features_basin
+                res["fb"] = sorted(int(f[7:]) for f in fb
+                                   if re.match(r"^userdef[0-%d]$" % (NFEAT - 1),
+                                               f))
             except CaseTimeout:
                 raise
             except BaseException as e:
-                res["contains"].append(-2)
-                res["contains_error"] = repr(e)
-            try:
-                v = float(ds[name][0])
-                src = int(v) // 1000 - 1
-                internal = (int(v) % 1000) >= 500
-                if (int(v) % 100) // 10 != ft or v != int(v):
-                    res["source"].append(-3)     # data of another feature
-                else:
-                    res["source"].append(src + (100 if internal else 0))
-            except CaseTimeout:
-                raise
-            except KeyError:
-                res["source"].append(-1)
-            except BaseException as e:
-                res["source"].append(-2)
-                res["source_error"] = repr(e)
+                res["fb"] = [-2]
+                res["fb_error"] = repr(e)
+
+        def obs_contains():
+            res["contains"] = []
+            for ft in range(NFEAT):
+                try:
+                    res["contains"].append(1 if "userdef%d" % ft in ds else 0)
+                except CaseTimeout:
+                    raise
+                except BaseException as e:
+                    res["contains"].append(-2)
+                    res["contains_error"] = repr(e)
+
+        def obs_read():
+            res["source"] = []
+            for ft in range(NFEAT):
+                try:
+                    v = float(ds["userdef%d" % ft][0])
+                    src = int(v) // 1000 - 1
+                    internal = (int(v) % 1000) >= 500
+                    if (int(v) % 100) // 10 != ft or v != int(v):
+                        res["source"].append(-3)     # data of another feature
+                    else:
+                        res["source"].append(src + (100 if internal else 0))
+                except CaseTimeout:
+                    raise
+                except KeyError:
+                    res["source"].append(-1)
+                except BaseException as e:
+                    res["source"].append(-2)
+                    res["source_error"] = repr(e)
+
+        # the order of the accesses must not matter (lazy construction,
+        # caches, removal of unavailable basins)
+        proto = case.get("proto", 0)
+        order = {0: (obs_listing, obs_contains, obs_read),
+                 1: (obs_read, obs_contains, obs_listing),
+                 2: (obs_contains, obs_read, obs_listing),
+                 3: (obs_read, obs_listing, obs_contains)}[proto]
+        for fn in order:
+            fn()
         # force every available basin open, at any depth
         try:
             res["followed"] = _force(ds, 0)
@@ -847,7 +865,8 @@ def gen_case(rng, max_files=6):
     rootfmt = "hdf5"
     if net_root:
         rootfmt = "s3" if rng.random() < 0.15 else "http"
-    return dict(root=dict(fmt=rootfmt, file=0), files=files)
+    return dict(root=dict(fmt=rootfmt, file=0), files=files,
+                proto=rng.choice([0, 0, 1, 2, 3]))
 
 
 def graph_cases(n, rng, variants):
